@@ -206,6 +206,8 @@ pub enum Ev {
     Input(String),
     /// Replace the interpreter with a fresh one (what front ends do after NEW).
     Replace,
+    /// `Interpreter::stop_evaluating()`: abandon whatever is running or awaited and go idle.
+    StopEvaluating,
     Randomize(u64),
 }
 
@@ -218,6 +220,7 @@ impl Ev {
             Ev::Break => json!("break"),
             Ev::Input(s) => json!({"input": s}),
             Ev::Replace => json!("replace"),
+            Ev::StopEvaluating => json!("stop_evaluating"),
             Ev::Randomize(s) => json!({"randomize": s.to_string()}),
         }
     }
@@ -227,6 +230,7 @@ impl Ev {
                 "continue" => Some(Ev::Cont),
                 "break" => Some(Ev::Break),
                 "replace" => Some(Ev::Replace),
+                "stop_evaluating" => Some(Ev::StopEvaluating),
                 _ => None,
             };
         }
@@ -260,6 +264,8 @@ pub fn enabled(state: InterpreterState, ev: &Ev) -> bool {
         (InterpreterState::AwaitingInput, Ev::Input(_)) => true,
         (InterpreterState::AwaitingInput, Ev::Break) => true,
         (InterpreterState::NewInterpreterRequested, Ev::Replace) => true,
+        (InterpreterState::Running, Ev::StopEvaluating) => true,
+        (InterpreterState::AwaitingInput, Ev::StopEvaluating) => true,
         (InterpreterState::Idle, Ev::Randomize(_)) => true,
         (InterpreterState::Running, Ev::Randomize(_)) => true,
         _ => false,
@@ -391,6 +397,14 @@ impl Sess {
                 let it = &mut self.it;
                 let r = guarded(|| {
                     it.provide_input(s.clone());
+                    Ok(())
+                });
+                self.finish(r)
+            }
+            Ev::StopEvaluating => {
+                let it = &mut self.it;
+                let r = guarded(|| {
+                    let _ = it.stop_evaluating();
                     Ok(())
                 });
                 self.finish(r)
